@@ -27,6 +27,7 @@ from ..core import Ctx, enc, dec
 THEOREMS = [
     "Escape.content_safe", "Escape.attr_safe", "Escape.text_roundtrip", "Escape.attr_roundtrip",
     "Escape.encode_safe", "Escape.encode_roundtrip", "Escape.attval_roundtrip", "Escape.comment_safe",
+    "Escape.attval_safe", "Escape.attval_no_markup", "Escape.starttag_attr_safe", "Escape.handbuilt_attr_counterexample",
     "Escape.flatten_render", "Escape.flatten_error_iff", "Escape.flatten_balanced", "Escape.flatten_safe",
     "Escape.flatten_text",
     "Escape.double_path", "Escape.double_path_param",
@@ -257,6 +258,33 @@ def run_function_streams(ctx: Ctx) -> None:
                 oracle_fn(ctx, op, s, out)
     for op in ops:
         ctx.compare("fn:" + op, reqs[op], impls[op], pay[op])
+    # docutils' start-tag writer with a hostile attribute value (where directive arguments and options end up)
+    sreq, simp_, spay = [], [], []
+    for _ in range(n):
+        v = rand_string(ctx.rng)
+        tag, name = ctx.rng.choice([("img", "alt"), ("img", "title"), ("pre", "title"), ("div", "alt")])
+        try:
+            out = "ok " + enc(translator().starttag({}, tag, "", **{name: v}))
+        except Exception as e:
+            out = exc_name(e)
+        sreq.append(f"escape starttag {enc(tag)} {enc(name)} {enc(v)}")
+        simp_.append(out)
+        spay.append({"op": "starttag", "tag": tag, "name": name, "s": v})
+        ctx.case(sreq[-1], nontrivial_string(v))
+        ctx.count("fn:starttag")
+        if out.startswith("ok "):
+            o = dec(out[3:])
+            try:
+                el = ET.fromstring(DOCTYPE + drop_illegal(o) + f"</{tag}>")
+                ok = len(el) == 0 and list(el.attrib) == [name] and \
+                    el.attrib[name] == drop_illegal(re.sub("[\t\n\r\x0b\x0c]", " ", v))
+            except ET.ParseError:
+                ok = False
+            if not ok:
+                ctx.fail("attr-not-preserved:starttag", spay[-1], f"starttag(..., {name}={v!r}) = {o!r}")
+        else:
+            ctx.fail("escape-function-raises:starttag:" + out, spay[-1], out)
+    ctx.compare("fn:starttag", sreq, simp_, spay)
     # `unescape` (the model's XML reading) vs expat, in attribute-value context
     ureq, uimp, upay = [], [], []
     for _ in range(n):
@@ -697,7 +725,28 @@ HTML_PAYLOADS = [
     "\U0001F600<xmk{i}/>é&",
     "<script>xmk{i}</script>",
     "<xmk{i} onzz{i}=\"x\">y</xmk{i}>",
+    # balanced: still well-formed XML when pasted unescaped into an attribute value or between elements (anything
+    # unbalanced is "caught" by pydoctor's own XML re-parse and hidden behind the plain-text fallback)
+    "<img src=\"x\" onzz{i}=\"z()\"/>",
+    "x\"><xmk{i}>m</xmk{i}><i y=\"",
+    "\"><script>xmk{i}</script><pre class=\"",
+    "x\" onzz{i}=\"1",
+    "</pre><xmk{i}>m</xmk{i}><pre>",
+    # entity look-alikes that HTML (not XML) knows: must stay text
+    "&LT;xmk{i}&GT;m&LT;/xmk{i}&GT;",
+    "&LT;img src=&QUOT;x&QUOT; onzz{i}=&QUOT;1&QUOT;/&GT;&lsqb;",
 ]
+# arguments of directives that cannot hold white space (code language, role names): balanced, no blank
+NOSPACE_PAYLOADS = [
+    "x\">a</pre><xmk{i}>m</xmk{i}><pre>",
+    "x\"><script>xmk{i}</script><pre>",
+    "\"/><xmk{i}/><pre>",
+    "<xmk{i}/>",
+    "&LT;xmk{i}/&GT;",
+]
+# values that make the XML re-parse of a signature / value fail on the unchanged tree (html4css1 writes U+00A0 as
+# &nbsp;): a sibling of a hostile value in the same signature exercises every "second try" path
+TRIPPERS = ["\u00a0", "a\u00a0b", "\x0c", "\ufffe", "\u2028\u00a0", "&nbsp;\u00a0"]
 # reST-flavoured payloads: only for positions that are not docstrings (in a docstring they are the author's markup)
 REST_PAYLOADS = [
     "<a href=\"javascript:alert({i})\">MKURL{i}</a>",   # a URI is reST markup too (standalone hyperlink): not for docstrings
@@ -773,9 +822,12 @@ def gen_project(rng, pidx: int, docformat: str, force_deprecated: bool = False) 
     markers: List[Marker] = []
     counter = [pidx * 40]
 
-    def mk(kind: str, rest_ok: bool = False, fix=None) -> Marker:
+    def mk(kind: str, rest_ok: bool = False, fix=None, pool=None) -> Marker:
         counter[0] += 1
-        pl = rng.choice(REST_PAYLOADS) if (rest_ok and rng.random() < 0.5) else rng.choice(HTML_PAYLOADS)
+        if pool is not None:
+            pl = rng.choice(pool)
+        else:
+            pl = rng.choice(REST_PAYLOADS) if (rest_ok and rng.random() < 0.5) else rng.choice(HTML_PAYLOADS)
         if "\x00" in pl and kind != "deprecated-replacement":
             pl = pl.replace("\x00", "")   # NUL in a displayed value is dropped by the colorizer: C15's subject (DESIGN §8-5)
         if fix is not None:
@@ -839,22 +891,40 @@ def gen_project(rng, pidx: int, docformat: str, force_deprecated: bool = False) 
         lines.append(f"CONST_A = {mk('constant', True).lit()}")
         if rng.random() < 0.5:
             lines.append(docstring("attribute-docstring", False))
+    def trip(p: float = 0.5) -> Optional[str]:
+        return repr(rng.choice(TRIPPERS)) if rng.random() < p else None
+
     if rng.random() < 0.4:
-        lines.append(f"CONST_B = [{mk('constant', True).lit()}, {{'k': {mk('constant').lit()}}}]")
+        t = trip()
+        lines.append(f"CONST_B = [{mk('constant', True).lit()}, {{'k': {mk('constant').lit()}}}" + (f", {t}" if t else "") + "]")
+    if rng.random() < 0.3:
+        lines.append(f"CONST_T = ({trip(1.0)}, {mk('constant').lit()})")
     if rng.random() < 0.3:
         lines.append(f"var_c: {mk('annotation').lit()} = {mk('attribute-value').lit()}")
     # function
     deco = ""
     if rng.random() < 0.5:
-        deco += f"@deco({mk('decorator-arg', True).lit()}, k={mk('decorator-arg').lit()})\n"
+        t = trip(0.4)
+        deco += f"@deco({mk('decorator-arg', True).lit()}, k={mk('decorator-arg').lit()}" + (f", t={t}" if t else "") + ")\n"
     if force_deprecated or rng.random() < 0.35:
         deco += f"@deprecated(Version('tp', 1, 2, 3), replacement={mk('deprecated-replacement', True).lit()})\n"
     ann = f": Literal[{mk('annotation').lit()}]" if rng.random() < 0.5 else ""
     ret = f" -> {mk('annotation').lit()}" if rng.random() < 0.4 else ""
-    lines.append(f"{deco}def func(a{ann}={mk('default', True).lit()}, *, b={mk('default').lit()}){ret}:\n"
+    t = trip()
+    tpar = ""
+    if t:
+        tpar = rng.choice([f", t={t}", f", t: Literal[{t}] = None", f", t: {t} = 0"])
+    lines.append(f"{deco}def func(a{ann}={mk('default', True).lit()}, *, b={mk('default').lit()}{tpar}){ret}:\n"
                  + indent(docstring("function-docstring", True)) + "\n    return a\n")
+    if rng.random() < 0.3:
+        # overloads have signatures of their own
+        lines.append("from typing import overload\n"
+                     f"@overload\ndef ov(a: int, s={mk('default').lit()}, t={trip(1.0)}) -> int: ...\n"
+                     f"@overload\ndef ov(a: str, s: Literal[{mk('annotation').lit()}] = None, t={trip(1.0)}) -> str: ...\n"
+                     "def ov(a, s=None, t=None):\n    '''overloaded'''\n    return a\n")
     # class
-    base = f"(Base, Generic[{mk('class-base-arg').lit()}])" if rng.random() < 0.4 else "(Base)"
+    t = trip(0.4)
+    base = (f"(Base, Generic[{mk('class-base-arg').lit()}" + (f", {t}" if t else "") + "])") if rng.random() < 0.4 else "(Base)"
     cdeco = f"@deco({mk('decorator-arg').lit()})\n" if rng.random() < 0.3 else ""
     cl = [f"{cdeco}class Klass{base}:", indent(docstring("class-docstring", False))]
     if rng.random() < 0.7:
@@ -862,7 +932,8 @@ def gen_project(rng, pidx: int, docformat: str, force_deprecated: bool = False) 
     if rng.random() < 0.5:
         cl.append(f"    attr: {mk('annotation').lit()} = 1")
         cl.append(indent(docstring("attribute-docstring", False)))
-    cl.append(f"    def meth(self, x={mk('default').lit()}):\n" + indent(docstring("function-docstring", True), 8) + "\n        return x")
+    t = trip()
+    cl.append(f"    def meth(self, x={mk('default').lit()}" + (f", pad={t}" if t else "") + "):\n" + indent(docstring("function-docstring", True), 8) + "\n        return x")
     if rng.random() < 0.3:
         cl.append(f"    @deprecated(Version('tp', 2, 0, 0), {mk('deprecated-replacement', True).lit()})\n    def old(self):\n        '''old'''")
     if rng.random() < 0.3:
@@ -870,6 +941,8 @@ def gen_project(rng, pidx: int, docformat: str, force_deprecated: bool = False) 
         cl.append(f"    @deprecated(Version({mk('deprecated-package', True).lit()}, 2, 0, 0), 'Base')\n    def older(self):\n        '''older'''")
     lines.append("\n".join(cl))
     files = {"tp/__init__.py": "\n".join(lines) + "\n"}
+    if docformat == "restructuredtext" or (docformat in ("google", "numpy") and rng.random() < 0.3):
+        files["tp/rstx.py"] = gen_directive_module(rng, mk, doc_safe)
     if rng.random() < 0.25:
         m = mk("module-filename")
         # a file name may hold anything but '/' and NUL; keep it importable-looking
@@ -879,6 +952,52 @@ def gen_project(rng, pidx: int, docformat: str, force_deprecated: bool = False) 
         files["tp/" + fname + ".py"] = '"""mod"""\nV = 1\n'
     return {"docformat": docformat, "files": files,
             "markers": [(m.id, m.num, m.kind, m.payload) for m in markers]}
+
+
+def gen_directive_module(rng, mk, doc_safe) -> str:
+    """reST constructs whose ARGUMENTS and OPTIONS (not body text) carry markers: one construct per function docstring,
+    so that a construct docutils refuses does not hide the others"""
+    n = [0]
+
+    def D(kind: str, nospace: bool = False) -> str:
+        m = mk("directive:" + kind, pool=NOSPACE_PAYLOADS if nospace else None)
+        return doc_safe(m)
+
+    def N() -> int:
+        n[0] += 1
+        return n[0]
+
+    Q = chr(34)
+    constructs = [
+        lambda: f".. code:: {D('code-language', True)}\n\n   body <b> & text",
+        lambda: f".. code-block:: {D('code-language', True)}\n   :caption: {D('code-caption')}\n\n   body <b> & text",
+        lambda: f".. code:: shell\n   :class: {D('option-class')}\n   :name: {D('option-name')}\n\n   ls <dir>",
+        lambda: f".. code:: python\n   :number-lines: {D('code-number-lines', True)}\n\n   x = 1",
+        lambda: f".. admonition:: Title {D('admonition-title')}\n   :class: {D('option-class')}\n\n   text",
+        lambda: f".. note:: {D('admonition-arg')}\n\n.. warning::\n   :name: {D('option-name')}\n\n   w",
+        lambda: f".. image:: pic{D('image-uri', True)}.png\n   :alt: {D('image-alt')}\n   :target: http://t/{D('image-target', True)}\n   :width: {D('image-width', True)}",
+        lambda: f".. figure:: fig{D('image-uri', True)}.png\n   :figclass: {D('option-class')}\n\n   caption {D('figure-caption')}",
+        lambda: (lambda k: f".. |sub{k}| replace:: {D('substitution-text')}\n\nUse |sub{k}| and |{D('substitution-name')}| here.")(N()),
+        lambda: f"Role :emphasis:`{D('role-text')}` and :{D('role-name', True)}:`x` and :code:`{D('role-text')}`.",
+        lambda: (lambda k: f"See [#fn{k}]_ and [{D('footnote-label', True)}]_.\n\n.. [#fn{k}] footnote {D('footnote-text')}")(N()),
+        lambda: f".. _target {D('target-name')}: http://example.org/{D('target-uri', True)}\n\nSee `target`_ and `{D('reference-name')}`_.",
+        lambda: f"Text.\n\n:fieldname {D('field-name')}: value {D('field-body')}",
+        lambda: f".. csv-table:: {D('table-title')}\n   :header: h1, h2\n\n   c1, {D('table-cell').replace(',', ';').replace(Q, chr(39))}",
+        lambda: f".. math:: {D('math')}\n\n.. math::\n   :label: {D('option-name')}\n\n   x^2",
+        lambda: f".. versionadded:: 1.0 {D('version-arg')}\n\n.. deprecated:: {D('version-arg', True)}\n   text",
+        lambda: f".. rubric:: {D('rubric')}\n   :class: {D('option-class')}\n\n.. topic:: {D('topic-title')}\n\n   body",
+        lambda: f".. container:: {D('container-class')}\n\n   body\n\n.. class:: {D('option-class')}\n\nparagraph",
+        lambda: f".. python::\n   :class: {D('option-class')}\n\n   print(1)\n\n.. unknown-{D('directive-name', True)}:: arg",
+        lambda: f"Title {D('section-title')}\n==================================================\n\ntext\n\n.. contents:: {D('contents-title')}",
+        lambda: f".. list-table:: {D('table-title')}\n   :widths: 10 {D('table-widths', True)}\n\n   * - a\n     - {D('table-cell')}",
+        lambda: f".. parsed-literal::\n   :class: {D('option-class')}\n\n   literal {D('parsed-literal')}\n\n.. epigraph::\n\n   quote\n\n   -- {D('attribution')}",
+    ]
+    out = [Q * 3 + "reST constructs" + Q * 3, '__docformat__ = "restructuredtext"', ""]
+    for k, c in enumerate(rng.sample(constructs, 7)):
+        body = "Summary.\n\n" + c()
+        out.append(f"def d{k}():\n    " + Q * 3 + "\n" + "\n".join(("    " + l if l else l) for l in body.split("\n"))
+                   + "\n    " + Q * 3 + "\n")
+    return "\n".join(out)
 
 
 def write_project(root: str, files: Dict[str, str]) -> None:
@@ -902,7 +1021,10 @@ def parse_page(raw: bytes):
     text = set_aside(text)
     body = PAGE_DOCTYPE.sub("", text, count=1)
     try:
-        return ET.fromstring((ENTITY_DECL + body).encode("utf-8")), text, ""
+        # comments are kept: marker text inside an HTML comment (a reST comment or unknown directive) is inert and accounted for
+        parser = ET.XMLParser(target=ET.TreeBuilder(insert_comments=True))
+        parser.feed((ENTITY_DECL + body).encode("utf-8"))
+        return parser.close(), text, ""
     except ET.ParseError as e:
         line, col = e.position
         src = (ENTITY_DECL + body).split("\n")
@@ -939,6 +1061,10 @@ def check_page(name: str, raw: bytes, markers: Sequence[Tuple[str, int, str, str
     for el in root.iter():
         tag = local(el.tag)
         if not isinstance(el.tag, str):
+            if el.tag is ET.Comment and el.text:
+                texts.append(("comment", el.text))
+            if el.tail:
+                texts.append(("tail", el.tail))
             continue
         if tag.lower().startswith("xmk"):
             res.append(("source-text-became-markup:" + kind_of(tag), f"{name}: element <{tag}>"))
@@ -970,6 +1096,8 @@ def check_page(name: str, raw: bytes, markers: Sequence[Tuple[str, int, str, str
     # V: the payload follows the id, verbatim modulo presentation
     joined = "".join(root.itertext())
     for mid, num, kind, payload in markers:
+        if kind.startswith("directive:"):
+            continue   # names, classes, ids, widths are normalised by docutils; W, S and A still apply
         want = norm_marker_text(payload)
         from urllib.parse import unquote
         for src in [joined] + [(unquote(v) if w in ("@href", "@src") else v) for w, v in texts if w.startswith("@")]:
